@@ -939,7 +939,7 @@ def correspondence(ctx, model_ok=True):
     rng = ctx.rng.fork("c12")
     failures = []
     broken = []
-    n_seq = 9000 if ctx.thorough else 300
+    n_seq = 9000 if ctx.thorough else 2700
     seqs = [gen_sequence(rng.fork("seq%d" % i), i, AVOID_NEG_ZERO) for i in range(n_seq)]
     stats = {"evaluations": 0, "evaluations_gc_always": 0, "sequences": 0, "ops": {}, "unhashable": 0, "nan": 0, "enums": 0,
              "nontrivial": set(), "collisions": 0, "neg_zero_sequences": 0, "model_compared": 0, "outside_model_domain": 0}
